@@ -10,7 +10,10 @@ EXTENDS Naturals, Sequences, TLC, Json
 
 CONSTANTS MaxCap, MaxOps, MaxMsgs,
           MaxPend,        \* asynchronous operations pending at the same time
-          FixedWrap       \* TRUE: resize wraps mq_get with >= (repaired); FALSE: > (defect: index = alloc)
+          FixedWrap,      \* TRUE: resize wraps mq_get with >= (repaired); FALSE: > (defect: index = alloc)
+          ResizeRuns,     \* TRUE: resize serves the waiting putters/getters and refreshes the pollables (repaired); FALSE: it does neither
+          GetRefills,     \* TRUE: a get that frees a slot lets the first waiting putter in (repaired); FALSE: the putter keeps waiting
+          NbReady         \* TRUE: a zero-timeout (non-blocking) put/get that can complete at once does (repaired); FALSE: always NNG_ETIMEDOUT
 
 VARIABLES q, cap, putq, getq, closed,
           ops,      \* ops[i] = [k, m, st]; completed operations are reported in lastAct.out.done and then
@@ -28,10 +31,10 @@ Init == /\ \E c \in 0..MaxCap : cap = c /\ alloc = c + 2
         /\ lastAct = [a |-> "init", cap |-> cap]
 
 \* ---- the state that run_putq / run_getq / tryput work on, as a record ----
-S0 == [q |-> q, ring |-> ring, get |-> get, put |-> put, len |-> len, putq |-> putq, getq |-> getq, ops |-> ops]
+S0 == [q |-> q, ring |-> ring, get |-> get, put |-> put, len |-> len, putq |-> putq, getq |-> getq, ops |-> ops, cap |-> cap, alloc |-> alloc]
 Enq(S, m) == [S EXCEPT !.q = Append(@, m), !.ring = [@ EXCEPT ![S.put] = m],
-                       !.put = IF S.put + 1 = alloc THEN 0 ELSE S.put + 1, !.len = @ + 1]
-Deq(S) == [S EXCEPT !.q = Tail(@), !.ring = [@ EXCEPT ![S.get] = 0], !.get = IF S.get + 1 = alloc THEN 0 ELSE S.get + 1, !.len = @ - 1]
+                       !.put = IF S.put + 1 = S.alloc THEN 0 ELSE S.put + 1, !.len = @ + 1]
+Deq(S) == [S EXCEPT !.q = Tail(@), !.ring = [@ EXCEPT ![S.get] = 0], !.get = IF S.get + 1 = S.alloc THEN 0 ELSE S.get + 1, !.len = @ - 1]
 Done(S, i, st, m) == [S EXCEPT !.ops = [@ EXCEPT ![i] = [k |-> @.k, m |-> m, st |-> st]]]
 
 RECURSIVE RunPutq(_), RunGetq(_)
@@ -41,7 +44,7 @@ RunPutq(S) ==
        IF S.getq # <<>>
          THEN LET r == Head(S.getq) IN
               RunPutq(Done(Done([S EXCEPT !.putq = Tail(@), !.getq = Tail(@)], r, "ok", m), w, "ok", m))
-       ELSE IF S.len < cap
+       ELSE IF S.len < S.cap
          THEN RunPutq(Done(Enq([S EXCEPT !.putq = Tail(@)], m), w, "ok", m))
        ELSE S
 RunGetq(S) ==
@@ -78,8 +81,9 @@ AioPut == /\ NOps < MaxOps /\ NPend < MaxPend /\ nextMsg <= MaxMsgs
 AioGet == /\ NOps < MaxOps /\ NPend < MaxPend
           /\ LET i == NOps + 1
                  S == [S0 EXCEPT !.ops = Append(@, [k |-> "get", m |-> 0, st |-> "pend"]), !.getq = Append(@, i)]
-             IN /\ Apply(RunGetq(S))
-                /\ lastAct' = [a |-> "aio_get", out |-> [done |-> DoneSeq(RunGetq(S).ops)]]
+                R == IF GetRefills THEN RunPutq(RunGetq(S)) ELSE RunGetq(S)
+             IN /\ Apply(R)
+                /\ lastAct' = [a |-> "aio_get", out |-> [done |-> DoneSeq(R.ops)]]
           /\ UNCHANGED <<cap, alloc, closed, nextMsg>>
 TryPut == /\ nextMsg <= MaxMsgs
           /\ nextMsg' = nextMsg + 1
@@ -94,6 +98,29 @@ TryPut == /\ nextMsg <= MaxMsgs
              ELSE /\ lastAct' = [a |-> "tryput", m |-> nextMsg, out |-> [rv |-> "eagain", done |-> <<>>]]
                   /\ UNCHANGED <<q, ring, get, put, len, putq, getq, ops>>
           /\ UNCHANGED <<cap, alloc, closed>>
+\* A put / get with a zero timeout (NNG_FLAG_NONBLOCK on a raw socket): completes iff it can complete at once, otherwise fails
+\* with NNG_ETIMEDOUT (reported as NNG_EAGAIN by nng_sendmsg / nng_recvmsg) and leaves the queue as it was.   (C15)
+NbFail(k, m) == /\ ops' = Append(ops, [k |-> "x", m |-> 0, st |-> "gone"])
+                /\ UNCHANGED <<q, ring, get, put, len, putq, getq>>
+NbPut == /\ NOps < MaxOps /\ nextMsg <= MaxMsgs
+         /\ LET i == NOps + 1
+                S == [S0 EXCEPT !.ops = Append(@, [k |-> "put", m |-> nextMsg, st |-> "pend"]), !.putq = Append(@, i)]
+                R == RunPutq(S)
+            IN IF NbReady /\ R.ops[i].st = "ok"
+                 THEN /\ Apply(R) /\ lastAct' = [a |-> "nb_put", m |-> nextMsg, out |-> [done |-> DoneSeq(R.ops)]]
+                 ELSE /\ NbFail("put", nextMsg)
+                      /\ lastAct' = [a |-> "nb_put", m |-> nextMsg, out |-> [done |-> <<[i |-> i, k |-> "put", m |-> nextMsg, st |-> "etimedout"]>>]]
+         /\ nextMsg' = nextMsg + 1
+         /\ UNCHANGED <<cap, alloc, closed>>
+NbGet == /\ NOps < MaxOps
+         /\ LET i == NOps + 1
+                S == [S0 EXCEPT !.ops = Append(@, [k |-> "get", m |-> 0, st |-> "pend"]), !.getq = Append(@, i)]
+                R == IF GetRefills THEN RunPutq(RunGetq(S)) ELSE RunGetq(S)
+            IN IF NbReady /\ R.ops[i].st = "ok"
+                 THEN /\ Apply(R) /\ lastAct' = [a |-> "nb_get", out |-> [done |-> DoneSeq(R.ops)]]
+                 ELSE /\ NbFail("get", 0)
+                      /\ lastAct' = [a |-> "nb_get", out |-> [done |-> <<[i |-> i, k |-> "get", m |-> 0, st |-> "etimedout"]>>]]
+         /\ UNCHANGED <<cap, alloc, closed, nextMsg>>
 \* nni_msgq_cancel through nni_aio_abort(NNG_ECANCELED)
 Cancel(i) == /\ i \in 1..NOps /\ ops[i].st = "pend"
              /\ ops' = [ops EXCEPT ![i] = [k |-> "x", m |-> 0, st |-> "gone"]]
@@ -116,19 +143,21 @@ DropTo(S, lim) == IF S.len <= lim THEN S
                                               ELSE (IF g1 > alloc THEN 0 ELSE g1)
                        IN DropTo([S EXCEPT !.q = Tail(@), !.get = g, !.len = @ - 1], lim)
 Resize(c) ==
-  LET D == DropTo(S0, c + 1) IN
-  /\ cap' = c
-  /\ q' = D.q
-  /\ IF c + 2 > alloc
-       THEN /\ alloc' = c + 2
-            /\ ring' = [i \in 0..MaxAlloc |-> IF i < D.len THEN D.ring[(D.get + i) % alloc] ELSE 0]
-            /\ get' = 0 /\ len' = D.len
-            /\ put' = IF D.len = c + 2 THEN 0 ELSE D.len
-       ELSE /\ get' = D.get /\ len' = D.len /\ UNCHANGED <<alloc, ring, put>>
-  /\ lastAct' = [a |-> "resize", c |-> c, out |-> [rv |-> "ok", done |-> <<>>]]
-  /\ UNCHANGED <<putq, getq, closed, ops, nextMsg>>
+  LET D == DropTo(S0, c + 1)
+      grow == c + 2 > alloc
+      \* the queue after the (possible) re-allocation
+      N == IF grow
+             THEN [D EXCEPT !.ring = [i \in 0..MaxAlloc |-> IF i < D.len THEN D.ring[(D.get + i) % alloc] ELSE 0],
+                            !.get = 0, !.put = IF D.len = c + 2 THEN 0 ELSE D.len, !.cap = c, !.alloc = c + 2]
+             ELSE [D EXCEPT !.cap = c]
+      \* "wake everyone up": the waiting putters and getters are served under the new capacity
+      R == IF ResizeRuns THEN RunGetq(RunPutq(N)) ELSE N
+  IN /\ cap' = c /\ alloc' = N.alloc
+     /\ Apply(R)
+     /\ lastAct' = [a |-> "resize", c |-> c, out |-> [rv |-> "ok", done |-> DoneSeq(R.ops)]]
+     /\ UNCHANGED <<closed, nextMsg>>
 
-Next == AioPut \/ AioGet \/ TryPut \/ Close \/ (\E i \in 1..MaxOps : Cancel(i)) \/ (\E c \in 0..MaxCap : Resize(c))
+Next == AioPut \/ AioGet \/ NbPut \/ NbGet \/ TryPut \/ Close \/ (\E i \in 1..MaxOps : Cancel(i)) \/ (\E c \in 0..MaxCap : Resize(c))
 Spec == Init /\ [][Next]_vars
 
 \* ---------------- properties ----------------
@@ -149,15 +178,40 @@ NoDupDelivery == lastAct.a # "init" =>
                         (i # j /\ lastAct.out.done[i].k = "get" /\ lastAct.out.done[j].k = "get"
                          /\ lastAct.out.done[i].st = "ok" /\ lastAct.out.done[j].st = "ok") => lastAct.out.done[i].m # lastAct.out.done[j].m
 QueuedNotDelivered == \A i \in 1..Len(q) : q[i] \notin PendingPutMsgs
+\* resize drops whole messages from the head only and only as many as no longer fit (one more than the capacity is tolerated);
+\* the survivors stay in order in front of whatever the waiting putters add, and waiting getters are served from the head
+GotMsgs(a) == LET d == a.out.done
+                  RECURSIVE F(_)
+                  F(i) == IF i > Len(d) THEN <<>> ELSE IF d[i].k = "get" /\ d[i].st = "ok" THEN <<d[i].m>> \o F(i + 1) ELSE F(i + 1)
+              IN F(1)
 ResizeKeepsSuffix ==
   [][lastAct'.a = "resize" =>
-       /\ Len(q') <= cap' + 1
-       /\ Len(q') >= (IF Len(q) < cap' THEN Len(q) ELSE cap')
-       /\ q' = SubSeq(q, Len(q) - Len(q') + 1, Len(q))]_vars
+       LET dropped == IF Len(q) > cap' + 1 THEN Len(q) - (cap' + 1) ELSE 0
+           surv == SubSeq(q, dropped + 1, Len(q))
+           all == GotMsgs(lastAct') \o q'
+       IN /\ Len(all) >= Len(surv)
+          /\ SubSeq(all, 1, Len(surv)) = surv]_vars
+
+\* C15 on the queue (raw sockets hand these two pollables out as their poll descriptors): readable iff a non-blocking get
+\* would succeed, writable iff a non-blocking put would.  After close the descriptors no longer mean anything.
+\* property level: what a non-blocking operation issued now would do
+WouldPut == LET i == NOps + 1
+                S == [S0 EXCEPT !.ops = Append(@, [k |-> "put", m |-> 0, st |-> "pend"]), !.putq = Append(@, i)]
+            IN RunPutq(S).ops[i].st = "ok"
+WouldGet == LET i == NOps + 1
+                S == [S0 EXCEPT !.ops = Append(@, [k |-> "get", m |-> 0, st |-> "pend"]), !.getq = Append(@, i)]
+            IN RunGetq(S).ops[i].st = "ok"
+Pv(b) == IF closed THEN "0|1" ELSE IF b THEN "1" ELSE "0"
+\* the rule nni_msgq_run_notify implements agrees with it in every reachable state (given the three repairs)
+NotifyRuleOK == (GetRefills /\ ResizeRuns /\ ~closed) => /\ WouldGet = (len # 0 \/ putq # <<>>)
+                                                         /\ WouldPut = (len < cap \/ getq # <<>>)
+\* nobody waits without a reason: a putter only on a full queue without getters, a getter only on an empty one without putters
+NoStaleWaiter == (GetRefills /\ ResizeRuns /\ ~closed) => /\ (putq # <<>> => len >= cap /\ getq = <<>>)
+                                                          /\ (getq # <<>> => len = 0 /\ putq = <<>>)
 
 \* ---------------- export ----------------
 SId == <<q, cap, putq, getq, closed, ops, ring, get, put, len, alloc, nextMsg>>
-Obs == [cap |-> cap, npend |-> Len(putq) + Len(getq)]
+Obs == [cap |-> cap, npend |-> Len(putq) + Len(getq), pollr |-> Pv(WouldGet), pollw |-> Pv(WouldPut)]
 Fin == q
 ExportEdge == PrintT(<<"E", ToJson([s |-> SId, sa |-> lastAct, d |-> SId', act |-> lastAct', obs |-> Obs', fin |-> Fin'])>>)
 View == SId
